@@ -21,6 +21,7 @@ import (
 	"errors"
 	"fmt"
 	"io"
+	"math/rand"
 	"net/http"
 	"net/http/httptest"
 	"net/url"
@@ -477,7 +478,7 @@ type world struct {
 
 func newWorld() (*world, error) {
 	w := &world{conns: map[string]*connState{}, byCID: map[string]*connState{}}
-	node, err := centrifuge.New(centrifuge.Config{LogLevel: centrifuge.LogLevelNone})
+	node, err := centrifuge.New(centrifuge.Config{LogLevel: centrifuge.LogLevelNone, ClientQueueMaxSize: 512 * 1024 * 1024})
 	if err != nil {
 		return nil, err
 	}
@@ -612,7 +613,7 @@ func (s *stream) count() (int, bool) {
 
 const (
 	writeWait   = 5 * time.Second // for the server to hand a message to the transport
-	deliverWait = 3 * time.Second // for a message handed to the transport to show up at the client, connection idle
+	deliverWait = 5 * time.Second // for a message handed to the transport to show up at the client, connection idle
 )
 
 type outcome struct {
@@ -1153,11 +1154,109 @@ func pbCatalogue() [][2]any {
 	}
 }
 
+// randomJSON: a random JSON text with random insignificant whitespace (SP, TAB, LF, CR, CRLF) at every token
+// boundary; strings carry escapes and characters that matter to line-oriented framings.
+func randomJSON(r *rand.Rand, cr bool) []byte {
+	var b bytes.Buffer
+	wsSet := []string{"", "", " ", "\t", "\n", "  \n "}
+	if cr {
+		wsSet = append(wsSet, "\r", "\r\n", "\n\r", " \r ")
+	}
+	ws := func() { b.WriteString(wsSet[r.Intn(len(wsSet))]) }
+	strs := []string{`"x"`, `"data: x"`, `": x"`, `" d"`, `"a\nb"`, `"a\rb"`, `"q\"q"`, `"\\n"`, `"\u000d\u000a"`, `"{\"d\":1}"`, "\"x\u2028y\"", `""`, `"event"`, `"id"`}
+	var val func(depth int)
+	val = func(depth int) {
+		k := r.Intn(6)
+		if depth >= 3 && k < 2 {
+			k += 2
+		}
+		switch k {
+		case 0:
+			b.WriteByte('{')
+			ws()
+			n := r.Intn(4)
+			for i := 0; i < n; i++ {
+				if i > 0 {
+					b.WriteByte(',')
+					ws()
+				}
+				b.WriteString(strs[r.Intn(len(strs))])
+				ws()
+				b.WriteByte(':')
+				ws()
+				val(depth + 1)
+				ws()
+			}
+			b.WriteByte('}')
+		case 1:
+			b.WriteByte('[')
+			ws()
+			n := r.Intn(4)
+			for i := 0; i < n; i++ {
+				if i > 0 {
+					b.WriteByte(',')
+					ws()
+				}
+				val(depth + 1)
+				ws()
+			}
+			b.WriteByte(']')
+		case 2:
+			b.WriteString(strs[r.Intn(len(strs))])
+		case 3:
+			fmt.Fprintf(&b, "%d", r.Intn(2000)-1000)
+		case 4:
+			b.WriteString([]string{"true", "false", "1.5e3", "-0.25"}[r.Intn(4)])
+		default:
+			b.WriteString(strs[r.Intn(len(strs))])
+		}
+	}
+	ws()
+	b.WriteByte('{')
+	ws()
+	b.WriteString(`"v"`)
+	ws()
+	b.WriteByte(':')
+	ws()
+	val(0)
+	ws()
+	b.WriteByte('}')
+	ws()
+	return b.Bytes()
+}
+
 func buildScenarios(thorough bool) []*scenario {
 	var out []*scenario
 	n := 0
 	id := func() string { n++; return fmt.Sprintf("s%03d", n) }
 	jsonTransports := []string{"sse-get", "sse-post", "hs-json"}
+	rnd := rand.New(rand.NewSource(vh.Seed()))
+	// 0. seed dependent: random JSON texts with random whitespace between tokens, many per connection (the
+	//    class, hence the signature, only says whether raw CR was allowed among the whitespace)
+	nRandom := 25
+	if thorough {
+		nRandom = 400
+	}
+	for _, tr := range jsonTransports {
+		for _, cr := range []bool{false, true} {
+			sc := &scenario{ID: id(), Transport: tr, Class: "random-whitespace", Field: "payload", Channel: "ch", What: fmt.Sprintf("seed %d", vh.Seed())}
+			if cr {
+				sc.Class = "raw-CR-random-whitespace"
+			}
+			for i := 0; i < nRandom; i++ {
+				d := randomJSON(rnd, cr)
+				if cr && bytes.IndexByte(d, '\r') < 0 {
+					d = append(d, '\r')
+				}
+				if !json.Valid(d) {
+					panic(fmt.Sprintf("generator produced invalid JSON %q", d))
+				}
+				sc.Actions = append(sc.Actions, action{Kind: "publish", Channel: "ch", Data: d})
+				sc.Expect = append(sc.Expect, expectation{Path: "push.pub.data", Want: d})
+			}
+			out = append(out, sc)
+		}
+	}
 	// 1. every payload class in the publication data, one connection each
 	for _, tr := range jsonTransports {
 		for _, p := range jsonCatalogue() {
@@ -1274,7 +1373,7 @@ func buildScenarios(thorough bool) []*scenario {
 		for sz := wdw[0]; sz <= wdw[1]; sz++ {
 			d := make([]byte, sz)
 			for i := range d {
-				d[i] = byte((i*7 + sz) % 256)
+				d[i] = byte(rnd.Intn(256))
 				if i%5 == 0 {
 					d[i] = '\n'
 				}
